@@ -13,17 +13,17 @@ import warnings
 
 from hypothesis import strategies as st
 
-from vf.api import Generated, HarnessError, Violation
+from vf.api import Enumerated, Generated, HarnessError, Violation
 
 PROPERTY = "C10"
 LEVEL = "exploration"
 RULE = (
-    "case = (column kinds 1-4 of int/str/json-list, pool of <=6 distinct rows, 0-40 row indexes into the pool, source spec, <=25 op records). "
+    "case = (column kinds 1-6 of int/str/json-list, pool of <=6 distinct rows, 0-40 row indexes into the pool, source spec, <=25 op records). "
     "Sources: iter | chunked(chunk sizes 1-7, dynamic_yield_per) | cursor(default) | stream(max_row_buffer 1-10) | yp_opt(yield_per option) | "
     "returning(insertmanyvalues page 1-7) | frozen(base, used twice) | merged(2-3 parts of iter/chunked/cursor/stream). Ops: fetchone, next, iter k, "
     "fetchmany(n>=1|None), all/fetchall, partitions(n|None, take k), first/one/one_or_none/scalar/scalar_one/scalar_one_or_none, view switches "
-    "scalars(i|key)/mappings/rows/tuples, columns(perm), unique(strategy), yield_per(n), freeze (unconsumed only), close; the program ends with all() "
-    "on the real result which must equal the undelivered remainder. Non-trivial: >=2 different row-delivering methods returned rows before "
+    "scalars(i|key)/mappings/rows/tuples, columns(1-5 positions WITH repetition and gaps, each given as int / string key / Column object, chained; half of the programs start with 1-2 projections), unique(strategy), yield_per(n), freeze (unconsumed only), close; the program ends with all() "
+    "on the real result which must equal the undelivered remainder; sub tuplegetter_exh: every index tuple of length <=4 over width 5 (780) through engine._util_cy.tuplegetter / _is_contiguous vs operator.itemgetter. Non-trivial: >=2 different row-delivering methods returned rows before "
     "exhaustion and the program used unique, yield_per / a buffering source, or a view switch / columns; distinct = canonical JSON of the case"
 )
 ASSUMPTIONS = [
@@ -504,15 +504,39 @@ def _run(case, ctx, env, classes, info):
             if view.kind == "scalars":
                 continue
             n = len(view.proj)
-            idx = []
-            for j in opd[1]:
-                j %= n
-                if j not in idx:
-                    idx.append(j)
-            args = [(m.keys[view.proj[j]] if opd[2] else j) for j in idx]
+            # projection = arbitrary sequence of positions WITH repetition and gaps; each element is given as an int,
+            # a string key or (cursor metadata only) the Column object.  Old format: ([idx..], bykey) without repetition.
+            if opd[1] and isinstance(opd[1][0], list):
+                spec = [(j % n, mode) for j, mode in opd[1]]
+            else:
+                spec = []
+                for j in opd[1]:
+                    if (j % n, 1 if opd[2] else 0) not in spec:
+                        spec.append((j % n, 1 if opd[2] else 0))
+            idx = [j for j, _ in spec]
+            args = []
+            for j, mode in spec:
+                kname = m.keys[view.proj[j]]
+                if mode == 2 and env.table is not None and kname in env.table.c and cur._metadata._has_key(env.table.c[kname]):
+                    args.append(env.table.c[kname])
+                    classes.add("projection-by-column-object")
+                elif mode >= 1:
+                    args.append(kname)
+                else:
+                    args.append(j)
             r2 = cur.columns(*args)
             if r2 is not cur:
                 raise vio("columns/identity", f"step {step}: columns() returned a different object")
+            if len(set(idx)) < len(idx):
+                classes.add("projection-repeats-index")
+                if max(idx) - min(idx) + 1 > len(set(idx)):
+                    classes.add("projection-repeat+gap")
+                if all(a <= b for a, b in zip(idx, idx[1:])) and idx[-1] - idx[0] == len(idx) - 1:
+                    classes.add("projection-nondecreasing-span-equals-length")
+            elif idx != list(range(idx[0], idx[0] + len(idx))):
+                classes.add("projection-gap-or-reorder")
+            if view.proj != list(range(len(m.keys))):
+                classes.add("projection-chained")
             view.proj = [view.proj[j] for j in idx]
             classes.add("op:columns" + ("-late" if view.fetched else ""))
             info["feature"] = True
@@ -843,9 +867,34 @@ def _fetch_op(draw, small=False):
     return [op]
 
 
+def _columns_op(draw):
+    """positions with repetition and gaps (length 1-5); element modes 0 int / 1 string key / 2 Column object"""
+    how = draw(st.sampled_from(["any", "any", "sorted", "dupgap"]))
+    if how == "dupgap":
+        # a contiguous run in which one element is replaced by its neighbour: repeat + compensating gap, e.g. (0,0,2), (0,2,2), (0,1,1,3)
+        ln = draw(st.integers(3, 5))
+        start = draw(st.integers(0, 3))
+        run = list(range(start, start + ln))
+        p = draw(st.integers(0, ln - 2))
+        if draw(st.booleans()) and p + 1 < ln - 1:
+            run[p + 1] = run[p]
+        elif p > 0:
+            run[p] = run[p + 1]
+        else:
+            run[1] = run[0]
+        idx = run
+    else:
+        idx = draw(st.lists(st.integers(0, 5), min_size=1, max_size=5))
+        if how == "sorted":
+            idx = sorted(idx)
+    mode = draw(st.sampled_from(["int", "int", "str", "obj", "mixed"]))
+    modes = [({"int": 0, "str": 1, "obj": 2}[mode] if mode != "mixed" else draw(st.integers(0, 2))) for _ in idx]
+    return ["columns", [[j, mm] for j, mm in zip(idx, modes)]]
+
+
 @st.composite
 def _programs(draw):
-    ncols = draw(st.integers(1, 4))
+    ncols = draw(st.sampled_from([1, 2, 3, 3, 4, 4, 5, 6]))
     kinds = [draw(st.sampled_from(["i", "i", "s", "j"])) for _ in range(ncols)]
     if draw(st.integers(0, 2)) > 1:
         kinds = [("i" if k == "j" else k) for k in kinds]  # some cases fully hashable by construction
@@ -869,6 +918,9 @@ def _programs(draw):
         fam = draw(st.sampled_from(["mem", "cursor"]))  # merge() requires identical metadata: one family per merged result
         source = {"kind": sk, "parts": [_simple_source(draw, fam) for _ in range(n)], "cuts": [draw(st.integers(0, 40)) for _ in range(n - 1)]}
     ops = []
+    # half of the programs start with one or two (chained) projections so that every access pattern runs over one
+    for _ in range(draw(st.sampled_from([0, 0, 1, 1, 2]))):
+        ops.append(_columns_op(draw))
     nops = draw(st.integers(5, 21))
     groups = ["fetch"] * 9 + ["view"] * 3 + ["config"] * 5 + ["freeze"]
     for i in range(nops):
@@ -878,7 +930,7 @@ def _programs(draw):
         elif g == "view":
             op = draw(st.sampled_from(["scalars", "mappings", "rows", "tuples"]))
             if op == "scalars":
-                ops.append([op, draw(st.integers(0, 3)), draw(st.booleans())])
+                ops.append([op, draw(st.integers(0, 5)), draw(st.booleans())])
             else:
                 ops.append([op])
         elif g == "config":
@@ -888,7 +940,7 @@ def _programs(draw):
             elif op == "yield_per":
                 ops.append([op, draw(st.integers(1, 6))])
             else:
-                ops.append([op, draw(st.lists(st.integers(0, 3), min_size=1, max_size=4)), draw(st.booleans())])
+                ops.append(_columns_op(draw))
         else:
             ops.append(["freeze"])
     # tail: a terminal method or close(), then a few more fetches on the closed / terminated result
@@ -903,7 +955,47 @@ def _programs(draw):
     return {"kinds": kinds, "pool": pool, "rows": rows, "source": source, "ops": ops}
 
 
+# ---------------------------------------------------------------- tuplegetter (projection primitive) vs operator.itemgetter
+def _tg_cases(tier):
+    import itertools
+
+    for ln in (1, 2, 3, 4):
+        for idx in itertools.product(range(5), repeat=ln):
+            yield list(idx)
+
+
+def check_tuplegetter(case, ctx):
+    import operator
+
+    from sqlalchemy.engine import _util_cy
+
+    idx = tuple(case)
+    row = (10, 11, 12, 13, 14)
+    exp = tuple(row[i] for i in idx)
+    ref = operator.itemgetter(*idx)(row)
+    if (ref if len(idx) > 1 else (ref,)) != exp:
+        raise HarnessError("reference itemgetter disagrees with the list model")
+    classes = ["len:%d" % len(idx)]
+    rep = len(set(idx)) < len(idx)
+    if rep:
+        classes.append("projection-repeats-index")
+        if max(idx) - min(idx) + 1 > len(set(idx)):
+            classes.append("projection-repeat+gap")
+    ctx.note(case, len(idx) > 1, classes=classes)
+    getter = _util_cy.tuplegetter(*idx)
+    for r in (row, list(row)):
+        got = tuple(getter(r))
+        if got != exp:
+            raise Violation("C10/tuplegetter/wrong-elements", f"tuplegetter{idx}({r!r}) = {got!r}, operator.itemgetter gives {exp!r}", observed=repr(got), expected=repr(exp))
+    isc = getattr(_util_cy, "_is_contiguous", None)  # plain function in the pure-Python build, not importable from the extension
+    if isc is not None and len(idx) > 1:
+        want = all(a + 1 == b for a, b in zip(idx, idx[1:]))
+        if bool(isc(idx)) != want:
+            raise Violation("C10/tuplegetter/is-contiguous", f"_is_contiguous{idx} = {bool(isc(idx))}, expected {want}", observed=repr(bool(isc(idx))), expected=repr(want))
+
+
 def subs(tier):
     return [
+        Enumerated("tuplegetter_exh", check_tuplegetter, cases=_tg_cases),
         Generated("programs", check_prog, strategy=_programs(), quick=4000, thorough=80000),
     ]
